@@ -26,6 +26,7 @@ Inductive Simple : stmt -> Prop :=
 | S_if c a : plain_rval mt c = true -> Simple a -> Simple (SIf c a None)
 | S_ifelse c a b : plain_rval mt c = true -> Simple a -> Simple b -> Simple (SIf c a (Some b))
 | S_block l : SimpleL l -> Simple (SBlock l)
+| S_while c a : plain_rval mt c = true -> Simple a -> Simple (SRepeat (LWhile c) a)
 with SimpleL : list stmt -> Prop :=
 | SL_nil : SimpleL []
 | SL_cons st r : Simple st -> SimpleL r -> SimpleL (st :: r).
@@ -63,6 +64,50 @@ Proof. reflexivity. Qed.
 Lemma exec_block f ss l : Sem.exec rt mt (S f) false ss (SBlock l) = exec_seq rt mt f false ss l.
 Proof. reflexivity. Qed.
 
+Lemma c_while c a : c_stmt rt mt false None (SRepeat (LWhile c) a) =
+  [I0 OC_LOOP] ++ c_rval rt mt c (DReg R_RESULT) ++ [jump JC_IF_FALSE (len (c_stmt rt mt false (Some 1) a ++ []) + 2)] ++ (c_stmt rt mt false (Some 1) a ++ []) ++
+  [jump JC_ALWAYS (- (len (c_rval rt mt c (DReg R_RESULT)) + 1 + len (c_stmt rt mt false (Some 1) a ++ [])))] ++ [I0 OC_END_LOOP].
+Proof. reflexivity. Qed.
+Lemma c_loop_after after l a : c_stmt rt mt false after (SRepeat l a) = c_stmt rt mt false None (SRepeat l a).
+Proof. reflexivity. Qed.
+Lemma c_if1_after after c a : c_stmt rt mt false after (SIf c a None) =
+  c_rval rt mt c (DReg R_RESULT) ++ [jump JC_IF_FALSE (len (c_stmt rt mt false after a) + 1)] ++ c_stmt rt mt false after a.
+Proof. reflexivity. Qed.
+Lemma c_if2_after after c a b : c_stmt rt mt false after (SIf c a (Some b)) =
+  c_rval rt mt c (DReg R_RESULT) ++ [jump JC_IF_FALSE (len (c_stmt rt mt false (option_map (fun x => x + 1 + len (c_stmt rt mt false after b)) after) a) + 2)] ++
+  c_stmt rt mt false (option_map (fun x => x + 1 + len (c_stmt rt mt false after b)) after) a ++
+  [jump JC_ALWAYS (len (c_stmt rt mt false after b) + 1)] ++ c_stmt rt mt false after b.
+Proof. reflexivity. Qed.
+Lemma c_block_cons_after after st r : c_stmt rt mt false after (SBlock (st :: r)) =
+  c_stmt rt mt false (option_map (fun a => a + len (c_stmt rt mt false after (SBlock r))) after) st ++ c_stmt rt mt false after (SBlock r).
+Proof. reflexivity. Qed.
+Lemma exec_while f ss c a : Sem.exec rt mt (S (S f)) false ss (SRepeat (LWhile c) a) = iterate rt mt f false ss (Some c) None None None a.
+Proof. reflexivity. Qed.
+Lemma iterate_while f ss c a : iterate rt mt (S f) false ss (Some c) None None None a =
+  (let* (go, s1) := (let* (x, sa) := eval_rval rt mt f false ss c in ROk (truthy x) sa) in
+   if negb go then ROk SigNormal s1 else
+   let* (sig, s3) := Sem.exec rt mt f false s1 a in
+   match sig with SigBreak => ROk SigNormal s3 | SigReturn v => ROk (SigReturn v) s3 | SigNormal => iterate rt mt f false s3 (Some c) None None None a end).
+Proof. reflexivity. Qed.
+
+(* the covered statements contain no break: the distance to the end of the enclosing loop does not enter their code *)
+Lemma atom_after st after : simple_atom mt st = true -> c_stmt rt mt false after st = c_stmt rt mt false None st.
+Proof. destruct st as [r v|m|ops|ops|ops| | | | |y v| | | | | | | |[v|]|[v|]| |]; cbn [simple_atom]; intros H; try discriminate; reflexivity. Qed.
+
+Lemma simple_after :
+  (forall st, Simple st -> forall after, c_stmt rt mt false after st = c_stmt rt mt false None st) /\
+  (forall l, SimpleL l -> forall after, c_stmt rt mt false after (SBlock l) = c_stmt rt mt false None (SBlock l)).
+Proof.
+  apply Simple_mutind.
+  - intros st H after. apply atom_after. exact H.
+  - intros c a _ _ IHa after. rewrite c_if1_after, c_if1, (IHa after). reflexivity.
+  - intros c a b _ _ IHa _ IHb after. rewrite c_if2_after, c_if2, (IHb after), (IHa _). reflexivity.
+  - intros l _ IH after. exact (IH after).
+  - intros c a _ _ _ after. apply c_loop_after.
+  - intros after. reflexivity.
+  - intros st r _ IHst _ IHr after. rewrite c_block_cons_after, c_block_cons, (IHr after), (IHst _). reflexivity.
+Qed.
+
 (* no routine markers in the code, so the compiler's relocation-aware length is the length *)
 Lemma simple_no_routine :
   (forall st, Simple st -> forallb not_routine (c_stmt rt mt false None st) = true) /\
@@ -73,6 +118,8 @@ Proof.
   - intros c a Hc _ IHa. rewrite c_if1, !forallb_app, IHa, (c_rval_no_routine rt mt c (DReg R_RESULT) Hc (plain_ok_result mt c Hc)). reflexivity.
   - intros c a b Hc _ IHa _ IHb. rewrite c_if2, !forallb_app, IHa, IHb, (c_rval_no_routine rt mt c (DReg R_RESULT) Hc (plain_ok_result mt c Hc)). reflexivity.
   - intros l _ IH. exact IH.
+  - intros c a Hc Ha IHa. rewrite c_while, app_nil_r, (proj1 simple_after a Ha (Some 1)), !forallb_app, IHa,
+      (c_rval_no_routine rt mt c (DReg R_RESULT) Hc (plain_ok_result mt c Hc)). reflexivity.
   - reflexivity.
   - intros st r _ IHst _ IHr. rewrite c_block_cons, forallb_app, IHst, IHr. reflexivity.
 Qed.
@@ -93,23 +140,23 @@ Proof. intros H. destruct H. constructor; assumption. Qed.
 
 Theorem simple_simulation :
   (forall st, Simple st ->
-     forall im ss s sig ss' fuel, sim ss s -> code_at im (m_pc s) (c_stmt rt mt false None st) -> (size st <= fuel)%nat ->
+     forall im ss s sig ss' fuel, sim ss s -> code_at im (m_pc s) (c_stmt rt mt false None st) ->
      Sem.exec rt mt fuel false ss st = ROk sig ss' -> sig = SigNormal /\ simulates im ss s ss' (c_stmt rt mt false None st)) /\
   (forall l, SimpleL l ->
-     forall im ss s sig ss' fuel, sim ss s -> code_at im (m_pc s) (c_stmt rt mt false None (SBlock l)) -> (sizeL l <= fuel)%nat ->
+     forall im ss s sig ss' fuel, sim ss s -> code_at im (m_pc s) (c_stmt rt mt false None (SBlock l)) ->
      exec_seq rt mt fuel false ss l = ROk sig ss' -> sig = SigNormal /\ simulates im ss s ss' (c_stmt rt mt false None (SBlock l))).
 Proof.
   apply Simple_mutind.
   - (* atom *)
-    intros st Hst im ss s sig ss' fuel Hsim Hc Hfuel He. rewrite (size_atom st Hst) in Hfuel.
+    intros st Hst im ss s sig ss' fuel Hsim Hc He.
     pose proof (atom_signal rt mt st fuel ss sig ss' Hst He) as Hsig. subst sig. split; [reflexivity|].
-    exact (atom_simulation rt mt st Hst im ss s ss' fuel Hsim Hc Hfuel He).
+    exact (atom_simulation rt mt st Hst im ss s ss' fuel Hsim Hc He).
   - (* if without else *)
-    intros c a Hc Ha IHa im ss s sig ss' fuel Hsim Hcode Hfuel He. cbn [size] in Hfuel.
-    destruct fuel as [|fuel]; [lia|]. rewrite exec_if in He. rewrite c_if1 in *.
+    intros c a Hc Ha IHa im ss s sig ss' fuel Hsim Hcode He.
+    destruct fuel as [|fuel]; [discriminate|]. rewrite exec_if in He. rewrite c_if1 in *.
     destruct (eval_rval rt mt fuel false ss c) as [x sa|e sa|sa] eqn:Ev; cbn [sbind] in He; try discriminate.
     apply code_at_app in Hcode. destruct Hcode as [Hcc Hrest]. apply code_at_app in Hrest. destruct Hrest as [Hj Hbody]. cbn [code_at] in Hj. destruct Hj as [Hfj _].
-    destruct (c_rval_runs rt mt c (DReg R_RESULT) Hc (plain_ok_result mt c Hc) im ss s x sa fuel Hsim Hcc ltac:(lia) Ev) as [Hsa [n Hn]]. subst sa.
+    destruct (c_rval_runs rt mt c (DReg R_RESULT) Hc (plain_ok_result mt c Hc) im ss s x sa fuel Hsim Hcc Ev) as [Hsa [n Hn]]. subst sa.
     set (k := zlength (c_rval rt mt c (DReg R_RESULT))) in *.
     set (s1 := put_vm s (DReg R_RESULT) x k) in *.
     assert (Hs1 : sim ss s1) by (apply sim_put_reg_hidden; [exact Hsim|reflexivity]).
@@ -123,7 +170,7 @@ Proof.
       assert (Hb2 : code_at im (m_pc s2) body).
       { unfold s2. cbn [with_pc m_pc]. unfold s1. cbn [put_vm m_pc]. unfold zlength in Hbody. cbn [length] in Hbody. fold k in Hbody.
         replace (m_pc s + k + 1) with (m_pc s + k + Z.of_nat 1) by lia. exact Hbody. }
-      destruct (IHa im ss s2 sig ss' fuel (sim_with_pc ss s1 _ Hs1) Hb2 ltac:(lia) He) as [Hsig (n2 & s3 & e3 & E3 & Hs3 & Hpc3 & Hst3 & Ht3)].
+      destruct (IHa im ss s2 sig ss' fuel (sim_with_pc ss s1 _ Hs1) Hb2 He) as [Hsig (n2 & s3 & e3 & E3 & Hs3 & Hpc3 & Hst3 & Ht3)].
       split; [exact Hsig|]. exists (n + (1 + n2))%nat, s3, ([] ++ ([] ++ e3)).
       split; [eapply esteps_app; [exact Hn|eapply esteps_app; [exact Ej|exact E3]]|]. split; [exact Hs3|].
       split; [rewrite Hpc3; unfold s2; cbn [with_pc m_pc]; unfold s1; cbn [put_vm m_pc]; fold k; unfold zlength; rewrite !app_length, !Nat2Z.inj_add; cbn [length]; unfold zlength in k; fold k; lia|].
@@ -135,12 +182,12 @@ Proof.
       split; [cbn [with_pc m_pc]; unfold s1; cbn [put_vm m_pc]; fold k; unfold zlength; rewrite !app_length, !Nat2Z.inj_add; cbn [length]; unfold zlength in k; fold k; lia|].
       split; [reflexivity|rewrite app_nil_r; reflexivity].
   - (* if with else *)
-    intros c a b Hc Ha IHa Hb IHb im ss s sig ss' fuel Hsim Hcode Hfuel He. cbn [size] in Hfuel.
-    destruct fuel as [|fuel]; [lia|]. rewrite exec_if in He. rewrite c_if2 in *.
+    intros c a b Hc Ha IHa Hb IHb im ss s sig ss' fuel Hsim Hcode He.
+    destruct fuel as [|fuel]; [discriminate|]. rewrite exec_if in He. rewrite c_if2 in *.
     destruct (eval_rval rt mt fuel false ss c) as [x sa|e sa|sa] eqn:Ev; cbn [sbind] in He; try discriminate.
     apply code_at_app in Hcode. destruct Hcode as [Hcc Hrest]. apply code_at_app in Hrest. destruct Hrest as [Hj Hrest]. cbn [code_at] in Hj. destruct Hj as [Hfj _].
     apply code_at_app in Hrest. destruct Hrest as [Hthen Hrest]. apply code_at_app in Hrest. destruct Hrest as [Hj2 Helse]. cbn [code_at] in Hj2. destruct Hj2 as [Hfj2 _].
-    destruct (c_rval_runs rt mt c (DReg R_RESULT) Hc (plain_ok_result mt c Hc) im ss s x sa fuel Hsim Hcc ltac:(lia) Ev) as [Hsa [n Hn]]. subst sa.
+    destruct (c_rval_runs rt mt c (DReg R_RESULT) Hc (plain_ok_result mt c Hc) im ss s x sa fuel Hsim Hcc Ev) as [Hsa [n Hn]]. subst sa.
     set (k := zlength (c_rval rt mt c (DReg R_RESULT))) in *.
     set (s1 := put_vm s (DReg R_RESULT) x k) in *.
     assert (Hs1 : sim ss s1) by (apply sim_put_reg_hidden; [exact Hsim|reflexivity]).
@@ -156,7 +203,7 @@ Proof.
       assert (Hb2 : code_at im (m_pc s2) ta).
       { unfold s2. cbn [with_pc m_pc]. rewrite Hk. unfold zlength in Hthen. cbn [length] in Hthen. fold k in Hthen.
         replace (m_pc s + k + 1) with (m_pc s + k + Z.of_nat 1) by lia. exact Hthen. }
-      destruct (IHa im ss s2 sig ss' fuel (sim_with_pc ss s1 _ Hs1) Hb2 ltac:(lia) He) as [Hsig (n2 & s3 & e3 & E3 & Hs3 & Hpc3 & Hst3 & Ht3)].
+      destruct (IHa im ss s2 sig ss' fuel (sim_with_pc ss s1 _ Hs1) Hb2 He) as [Hsig (n2 & s3 & e3 & E3 & Hs3 & Hpc3 & Hst3 & Ht3)].
       assert (Hfj2' : fetch im (m_pc s3) = Some (jump JC_ALWAYS (zlength tb + 1))).
       { rewrite Hpc3. unfold s2. cbn [with_pc m_pc]. rewrite Hk. unfold zlength in Hfj2 |- *. cbn [length] in Hfj2. fold k in Hfj2.
         replace (m_pc s + k + 1 + Z.of_nat (length ta)) with (m_pc s + k + Z.of_nat 1 + Z.of_nat (length ta)) by lia. exact Hfj2. }
@@ -165,32 +212,119 @@ Proof.
       split; [eapply esteps_app; [exact Hn|eapply esteps_app; [exact Ej|eapply esteps_app; [exact E3|exact Ej2]]]|].
       split; [apply sim_with_pc; exact Hs3|].
       split; [cbn [with_pc m_pc]; rewrite Hpc3; unfold s2; cbn [with_pc m_pc]; rewrite Hk; unfold zlength; rewrite !app_length, !Nat2Z.inj_add; cbn [length]; unfold zlength in k; fold k; lia|].
-      split; [cbn [with_pc m_stack]; rewrite Hst3; reflexivity|]. cbn [app]. rewrite app_nil_r. exact Ht3.
+      split; [change (m_stack (with_pc s3 (m_pc s3 + (zlength tb + 1))), m_frames (with_pc s3 (m_pc s3 + (zlength tb + 1)))) with (m_stack s3, m_frames s3); rewrite Hst3; reflexivity|]. cbn [app]. rewrite app_nil_r. exact Ht3.
     + (* else-branch *)
       set (s2 := with_pc s1 (m_pc s1 + (zlength ta + 2))) in *.
       assert (Hb2 : code_at im (m_pc s2) tb).
       { unfold s2. cbn [with_pc m_pc]. rewrite Hk. unfold zlength in Helse |- *. cbn [length] in Helse. fold k in Helse.
         replace (m_pc s + k + (Z.of_nat (length ta) + 2)) with (m_pc s + k + Z.of_nat 1 + Z.of_nat (length ta) + Z.of_nat 1) by lia. exact Helse. }
-      destruct (IHb im ss s2 sig ss' fuel (sim_with_pc ss s1 _ Hs1) Hb2 ltac:(lia) He) as [Hsig (n2 & s3 & e3 & E3 & Hs3 & Hpc3 & Hst3 & Ht3)].
+      destruct (IHb im ss s2 sig ss' fuel (sim_with_pc ss s1 _ Hs1) Hb2 He) as [Hsig (n2 & s3 & e3 & E3 & Hs3 & Hpc3 & Hst3 & Ht3)].
       split; [exact Hsig|]. exists (n + (1 + n2))%nat, s3, ([] ++ ([] ++ e3)).
       split; [eapply esteps_app; [exact Hn|eapply esteps_app; [exact Ej|exact E3]]|]. split; [exact Hs3|].
       split; [rewrite Hpc3; unfold s2; cbn [with_pc m_pc]; rewrite Hk; unfold zlength; rewrite !app_length, !Nat2Z.inj_add; cbn [length]; unfold zlength in k; fold k; lia|].
       split; [rewrite Hst3; reflexivity|exact Ht3].
   - (* block *)
-    intros l Hl IH im ss s sig ss' fuel Hsim Hc Hfuel He. rewrite size_block in Hfuel. destruct fuel as [|fuel]; [lia|].
-    rewrite exec_block in He. exact (IH im ss s sig ss' fuel Hsim Hc ltac:(lia) He).
+    intros l Hl IH im ss s sig ss' fuel Hsim Hc He. destruct fuel as [|fuel]; [discriminate|].
+    rewrite exec_block in He. exact (IH im ss s sig ss' fuel Hsim Hc He).
+  - (* while loop *)
+    intros c a Hc Ha IHa im ss s sig ss' fuel Hsim Hcode He.
+    destruct fuel as [|[|fuel]]; try discriminate. rewrite exec_while in He.
+    rewrite c_while, app_nil_r, (proj1 simple_after a Ha (Some 1)) in *.
+    pose proof (proj1 simple_no_routine a Ha) as Hnrb.
+    pose proof (c_rval_no_routine rt mt c (DReg R_RESULT) Hc (plain_ok_result mt c Hc)) as Hnrt.
+    rewrite (len_no_routine _ Hnrb), (len_no_routine _ Hnrt) in *.
+    set (T := c_rval rt mt c (DReg R_RESULT)) in *. set (B := c_stmt rt mt false None a) in *.
+    set (kT := zlength T) in *. set (kB := zlength B) in *.
+    apply code_at_app in Hcode. destruct Hcode as [Hloop Hcode]. cbn [code_at] in Hloop. destruct Hloop as [Hfl _].
+    apply code_at_app in Hcode. destruct Hcode as [HcT Hcode].
+    apply code_at_app in Hcode. destruct Hcode as [Hj Hcode]. cbn [code_at] in Hj. destruct Hj as [Hfj _].
+    apply code_at_app in Hcode. destruct Hcode as [HcB Hcode].
+    apply code_at_app in Hcode. destruct Hcode as [Hjb Hend]. cbn [code_at] in Hjb, Hend. destruct Hjb as [Hfjb _]. destruct Hend as [Hfe _].
+    rewrite !zlength1 in HcT, Hfj, HcB, Hfjb, Hfe.
+    set (P0 := m_pc s) in *.
+    (* LOOP *)
+    set (d := zlength (m_stack s)).
+    set (s1 := advance (with_frames s (FLoop [] d :: m_frames s))).
+    assert (E1 : esteps 1 im s = Some (s1, [])) by (apply (estep1 im s _ _ _ Hfl); reflexivity).
+    assert (Hs1 : sim ss s1) by (destruct Hsim; constructor; cbn; assumption).
+    (* the iteration, by induction on the fuel of the reference semantics *)
+    assert (Hiter : forall f ss1 sx sg ssx lv,
+              sim ss1 sx -> m_pc sx = P0 + 1 -> m_frames sx = FLoop lv d :: m_frames s -> m_stack sx = m_stack s ->
+              iterate rt mt f false ss1 (Some c) None None None a = ROk sg ssx ->
+              sg = SigNormal /\ exists n sy evs, esteps n im sx = Some (sy, evs) /\ sim ssx sy /\ m_pc sy = P0 + (kT + kB + 4) /\
+                                           (m_stack sy, m_frames sy) = (m_stack s, m_frames s) /\ rev (s_trace ssx) = rev (s_trace ss1) ++ evs).
+    { induction f as [|f IHf]; intros ss1 sx sg ssx lv Hsx Hpcx Hfrx Hstx Hit; [discriminate|].
+      rewrite iterate_while in Hit.
+      destruct (eval_rval rt mt f false ss1 c) as [x sa|e sa|sa] eqn:Ev; cbn [sbind] in Hit; try discriminate.
+      assert (HcTx : code_at im (m_pc sx) T) by (rewrite Hpcx; exact HcT).
+      destruct (c_rval_runs rt mt c (DReg R_RESULT) Hc (plain_ok_result mt c Hc) im ss1 sx x sa f Hsx HcTx Ev) as [Hsa [n Hn]]. subst sa.
+      fold T in Hn. fold kT in Hn.
+      set (s2 := put_vm sx (DReg R_RESULT) x kT) in *.
+      assert (Hs2 : sim ss1 s2) by (apply sim_put_reg_hidden; [exact Hsx|reflexivity]).
+      assert (Hr2 : rf_get (m_regs s2) R_RESULT = Some x) by (unfold s2; cbn [put_vm m_regs]; apply rf_get_set_same).
+      assert (Hpc2 : m_pc s2 = P0 + 1 + kT) by (unfold s2; cbn [put_vm m_pc]; rewrite Hpcx; reflexivity).
+      assert (Hfj2 : fetch im (m_pc s2) = Some (jump JC_IF_FALSE (kB + 2))) by (rewrite Hpc2; exact Hfj).
+      pose proof (jump_if_false im s2 x (kB + 2) Hr2 Hfj2) as Ej.
+      destruct (truthy x) eqn:Etx; cbn [negb] in Hit.
+      - (* the body runs, then back to the test *)
+        destruct (Sem.exec rt mt f false ss1 a) as [sgb sb|eb sb|sb] eqn:Eb; cbn [sbind] in Hit; try discriminate.
+        set (s3 := with_pc s2 (m_pc s2 + 1)) in *.
+        assert (HcB3 : code_at im (m_pc s3) B).
+        { unfold s3. cbn [with_pc m_pc]. rewrite Hpc2. exact HcB. }
+        destruct (IHa im ss1 s3 sgb sb f (sim_with_pc ss1 s2 _ Hs2) HcB3 Eb) as [Hsgb (n3 & s4 & e4 & E4 & Hs4 & Hpc4 & Hst4 & Ht4)]. subst sgb.
+        assert (Hfjb4 : fetch im (m_pc s4) = Some (jump JC_ALWAYS (- (kT + 1 + kB)))).
+        { rewrite Hpc4. unfold s3. cbn [with_pc m_pc]. rewrite Hpc2. fold B. fold kB. exact Hfjb. }
+        pose proof (jump_always im s4 (- (kT + 1 + kB)) Hfjb4) as Ejb.
+        set (s5 := with_pc s4 (m_pc s4 + - (kT + 1 + kB))) in *.
+        assert (Hst4' : m_stack s4 = m_stack s /\ m_frames s4 = FLoop lv d :: m_frames s).
+        { injection Hst4 as Hsk Hfk. unfold s3 in Hsk, Hfk. cbn [with_pc m_stack m_frames] in Hsk, Hfk. unfold s2 in Hsk, Hfk. cbn [put_vm m_stack m_frames] in Hsk, Hfk.
+          rewrite Hsk, Hfk. split; assumption. }
+        destruct Hst4' as [Hsk4 Hfk4].
+        destruct (IHf sb s5 sg ssx lv (sim_with_pc sb s4 _ Hs4)) as [Hsg (n6 & s6 & e6 & E6 & Hs6 & Hpc6 & Hst6 & Ht6)].
+        { unfold s5. cbn [with_pc m_pc]. rewrite Hpc4. unfold s3. cbn [with_pc m_pc]. rewrite Hpc2. fold B. fold kB. lia. }
+        { exact Hfk4. }
+        { exact Hsk4. }
+        { exact Hit. }
+        split; [exact Hsg|]. exists (n + (1 + (n3 + (1 + n6))))%nat, s6, ([] ++ ([] ++ (e4 ++ ([] ++ e6)))).
+        split; [eapply esteps_app; [exact Hn|eapply esteps_app; [exact Ej|eapply esteps_app; [exact E4|eapply esteps_app; [exact Ejb|exact E6]]]]|].
+        split; [exact Hs6|]. split; [exact Hpc6|]. split; [exact Hst6|]. cbn [app]. rewrite Ht6, Ht4, app_assoc. reflexivity.
+      - (* the loop ends: jump to END_LOOP, which drops the loop frame *)
+        injection Hit as Hsg Hss. subst ssx.
+        set (s3 := with_pc s2 (m_pc s2 + (kB + 2))) in *.
+        assert (Hfe3 : fetch im (m_pc s3) = Some (I0 OC_END_LOOP)).
+        { unfold s3. cbn [with_pc m_pc]. rewrite Hpc2.
+          replace (P0 + 1 + kT + (kB + 2)) with (P0 + 1 + kT + 1 + kB + 1) by lia. exact Hfe. }
+        assert (Hfr3 : m_frames s3 = FLoop lv d :: m_frames s) by exact Hfrx.
+        assert (Hst3 : m_stack s3 = m_stack s) by exact Hstx.
+        set (s4 := advance (with_stack (with_frames s3 (m_frames s)) (truncate_to (m_stack s3) d))).
+        assert (E4 : esteps 1 im s3 = Some (s4, [])).
+        { apply (estep1 im s3 _ _ _ Hfe3). cbn [Machine.exec i_op I0]. rewrite Hfr3. reflexivity. }
+        assert (Htr : truncate_to (m_stack s3) d = m_stack s).
+        { rewrite Hst3. unfold d. destruct (m_stack s) as [|v k]; cbn [truncate_to]; [reflexivity|]. rewrite Z.leb_refl. reflexivity. }
+        split; [auto|]. exists (n + (1 + 1))%nat, s4, ([] ++ ([] ++ [])).
+        split; [eapply esteps_app; [exact Hn|eapply esteps_app; [exact Ej|exact E4]]|].
+        split.
+        { destruct Hs2 as [Hr Hfu Hg Hfr Hl Hw Hu]. constructor; cbn; try assumption. exact (sim_frames _ _ Hsim). }
+        split; [change (m_pc s4) with (m_pc s2 + (kB + 2) + 1); rewrite Hpc2; lia|].
+        split; [change (m_stack s4, m_frames s4) with (truncate_to (m_stack s3) d, m_frames s); rewrite Htr; reflexivity|].
+        rewrite app_nil_r. reflexivity. }
+    destruct (Hiter fuel ss s1 sig ss' [] Hs1 eq_refl eq_refl eq_refl He) as [Hsig (n & sy & evs & En & Hsy & Hpcy & Hsty & Hty)].
+    split; [exact Hsig|]. exists (1 + n)%nat, sy, ([] ++ evs).
+    split; [eapply esteps_app; [exact E1|exact En]|]. split; [exact Hsy|].
+    split; [rewrite Hpcy; unfold kT, kB, zlength; rewrite !app_length; cbn [length]; rewrite !Nat2Z.inj_add; lia|].
+    split; [exact Hsty|exact Hty].
   - (* empty sequence *)
-    intros im ss s sig ss' fuel Hsim Hc Hfuel He. destruct fuel as [|fuel]; [cbn in Hfuel; lia|]. rewrite exec_seq_nil in He.
+    intros im ss s sig ss' fuel Hsim Hc He. destruct fuel as [|fuel]; [discriminate|]. rewrite exec_seq_nil in He.
     injection He as Hsig He. subst ss'. split; [auto|]. exists 0%nat, s, [].
     split; [reflexivity|]. split; [exact Hsim|]. split; [unfold zlength; cbn; lia|]. split; [reflexivity|rewrite app_nil_r; reflexivity].
   - (* sequence *)
-    intros st r Hst IHst Hr IHr im ss s sig ss' fuel Hsim Hc Hfuel He. rewrite sizeL_cons in Hfuel.
-    destruct fuel as [|fuel]; [lia|]. rewrite exec_seq_cons in He. rewrite c_block_cons in *.
+    intros st r Hst IHst Hr IHr im ss s sig ss' fuel Hsim Hc He.
+    destruct fuel as [|fuel]; [discriminate|]. rewrite exec_seq_cons in He. rewrite c_block_cons in *.
     destruct (Sem.exec rt mt fuel false ss st) as [sg sa|e sa|sa] eqn:Est; cbn [sbind] in He; try discriminate.
     apply code_at_app in Hc. destruct Hc as [Hc1 Hc2].
-    destruct (IHst im ss s sg sa fuel Hsim Hc1 ltac:(lia) Est) as [Hsg (n1 & s1 & e1 & E1 & Hs1 & Hpc1 & Hst1 & Ht1)]. subst sg.
+    destruct (IHst im ss s sg sa fuel Hsim Hc1 Est) as [Hsg (n1 & s1 & e1 & E1 & Hs1 & Hpc1 & Hst1 & Ht1)]. subst sg.
     assert (Hc2' : code_at im (m_pc s1) (c_stmt rt mt false None (SBlock r))) by (rewrite Hpc1; exact Hc2).
-    destruct (IHr im sa s1 sig ss' fuel Hs1 Hc2' ltac:(lia) He) as [Hsig (n2 & s2 & e2 & E2 & Hs2 & Hpc2 & Hst2 & Ht2)].
+    destruct (IHr im sa s1 sig ss' fuel Hs1 Hc2' He) as [Hsig (n2 & s2 & e2 & E2 & Hs2 & Hpc2 & Hst2 & Ht2)].
     split; [exact Hsig|]. exists (n1 + n2)%nat, s2, (e1 ++ e2). split; [eapply esteps_app; eassumption|]. split; [exact Hs2|].
     split; [rewrite Hpc2, Hpc1; unfold zlength; rewrite app_length, Nat2Z.inj_add; lia|].
     split; [rewrite Hst2; exact Hst1|]. rewrite Ht2, Ht1, app_assoc. reflexivity.
@@ -204,11 +338,11 @@ Proof. induction l as [|st r IH]; [reflexivity|]. rewrite c_block_cons. cbn [fla
    machine model from the initial state it finishes with exactly the events the reference
    semantics gives for its source *)
 Theorem loopfree_program_runs_as_its_source_says (p : script) (w : world) (fuel : nat) (evs : list event) :
-  SimpleL (snd (collect p [] [])) p -> (sizeL p <= fuel)%nat ->
+  SimpleL (snd (collect p [] [])) p ->
   run_src fuel p w = SFinished evs ->
   exists k, run_program k (compile p) w = Finished evs.
 Proof.
-  intros Hs Hfuel Hrun. unfold run_src, compile in *. destruct (collect p [] []) as [rt mt] eqn:Ec. cbn [snd] in Hs.
+  intros Hs Hrun. unfold run_src, compile in *. destruct (collect p [] []) as [rt mt] eqn:Ec. cbn [snd] in Hs.
   destruct (exec_seq rt mt fuel false (init_sstate w) p) as [sig ss'|e ss'|ss'] eqn:Ee; try discriminate.
   injection Hrun as Hrun.
   rewrite <- (c_block_flat rt mt p).
@@ -216,7 +350,7 @@ Proof.
   set (im := load code).
   assert (Him : im_code im = code) by (apply load_no_routine; apply (proj2 (simple_no_routine rt mt) p Hs)).
   assert (Hc : code_at im (m_pc (init_state w)) code) by (apply (code_at_suffix im [] code); exact Him).
-  destruct (proj2 (simple_simulation rt mt) p Hs im (init_sstate w) (init_state w) sig ss' fuel (sim_init w) Hc Hfuel Ee)
+  destruct (proj2 (simple_simulation rt mt) p Hs im (init_sstate w) (init_state w) sig ss' fuel (sim_init w) Hc Ee)
     as [_ (n & s' & es & En & Hsim & Hpc & _ & Htr)].
   exists (n + 1)%nat. unfold run_program, run_image. fold im.
   rewrite (run_from_esteps n im (init_state w) s' es 1 [] En). cbn [run_from].
@@ -238,6 +372,7 @@ Fixpoint simple_b (fuel : nat) (st : stmt) : bool :=
       | SIf c a None => plain_rval mt c && simple_b f a
       | SIf c a (Some b) => plain_rval mt c && simple_b f a && simple_b f b
       | SBlock l => forallb (simple_b f) l
+      | SRepeat (LWhile c) a => plain_rval mt c && simple_b f a
       | _ => false
       end
   end.
@@ -251,6 +386,7 @@ Proof.
     + apply andb_true_iff in H. destruct H as [H Hb]. apply andb_true_iff in H. destruct H as [Hc Ha].
       apply S_ifelse; [exact Hc|apply IH; exact Ha|apply IH; exact Hb].
     + apply andb_true_iff in H. destruct H as [Hc Ha]. apply S_if; [exact Hc|apply IH; exact Ha].
+  - destruct l; try discriminate. apply andb_true_iff in H. destruct H as [Hc Ha]. apply S_while; [exact Hc|apply IH; exact Ha].
   - apply S_block. clear Ea. induction ss as [|x r IHr]; [constructor|]. cbn [forallb] in H. apply andb_true_iff in H. destruct H as [Hx Hr].
     constructor; [apply IH; exact Hx|apply IHr; exact Hr].
 Qed.
